@@ -79,6 +79,7 @@ spec = [f'import (\n    ext "zzc05b"\n)\n', f'options (\n    go_package="{PKG}"\
         "enum Color {\n    None = 0;\n    Red = 1;\n    Max = 2147483647;\n}\n",
         "struct Point {\n    x int32;\n    y int64;\n    f float64;\n    inner Pair;\n}\n",
         "struct Pair {\n    a byte;\n    b uint16;\n}\n",
+        "struct Named {\n    id byte;\n    name string;\n    tail uint16;\n}\n",
         "message Inner {\n    v byte 1;\n    w int32 65535;\n}\n"]
 for name, fields in MESSAGES:
     lines = [f"    {f} {schema_type(k)} {t};" for f, k, t in fields]
@@ -212,6 +213,21 @@ func ZZ_C05_StructCodec() {
 	zzverif.Reach("done")
 }
 
+// ZZ_C05_StructWithString: a struct holding a variable-size field (its header is the sum of the sizes
+// the field encoders report).
+func ZZ_C05_StructWithString() {
+	s := Named{Id: zzverif.Byte(), Name: zzverif.String(zzverif.Param("SL")), Tail: zzverif.Uint16()}
+	buf := buffer.New()
+	n, err := s.EncodeTo(buf)
+	zzverif.Assert(err == nil && n == buf.Len(), "struct encode size equals bytes appended")
+	var d Named
+	n2, err := d.Decode(buf.Bytes())
+	zzverif.Assert(err == nil, "struct decode")
+	zzverif.Assert(n2 == n, "struct decode size equals encode size")
+	zzverif.Assert(d.Id == s.Id && string(d.Name) == string(s.Name) && d.Tail == s.Tail, "struct decode(encode(s)) != s")
+	zzverif.Reach("done")
+}
+
 // ZZ_C05_EnumCodec: enum round trip over the full int32 range.
 func ZZ_C05_EnumCodec() {
 	v := Color(zzverif.Int32())
@@ -225,5 +241,6 @@ func ZZ_C05_EnumCodec() {
 ''']
 for fn in ("ZZ_C05_StructCodec", "ZZ_C05_EnumCodec"):
     entries.append({"func": PKG + "." + fn, "params": {"quick": {}}, "reach": ["done"], "unwind": 200})
+entries.append({"func": PKG + ".ZZ_C05_StructWithString", "params": {"quick": {"SL": [0, 2]}, "thorough": {"SL": [0, 1, 2, 5]}}, "reach": ["done"], "unwind": 200})
 open(f"{out}/go/zz_C05_harness.go", "w").write("\n".join(H))
 json.dump(entries, open(f"{out}/harnesses.json", "w"), indent=1)
